@@ -480,11 +480,35 @@ func TestVerifC12(t *testing.T) {
 		c12Features(res)
 	}
 	res.sample(map[string]any{"scenario": c12Scenario{Mode: "hb", Retries: 2, Script: "SLW", PeerHB: "t6"}})
+	res.Extra["states_are_outcomes"] = true
 }
 
 // c12Features: an Association Setup Request is accepted exactly when the datapath is connected and in both cases
 // advertises F-TEID allocation always, UE IP allocation and end markers iff enabled.
 func c12Features(res *vResult) {
+	// every sequence of up to 4 steps over {Association Setup (same Recovery Time Stamp), Association Setup of a restarted
+	// peer (newer time stamp), Association Setup from another node id, datapath connectivity toggles}, from both initial
+	// connectivity states: each Association Setup is accepted exactly when the datapath is connected at that moment
+	var seqs []string
+	frontier := []string{""}
+	for l := 1; l <= 4; l++ {
+		var next []string
+		for _, p := range frontier {
+			for _, a := range "ABNT" {
+				next = append(next, p+string(a))
+			}
+		}
+		seqs = append(seqs, next...)
+		frontier = next
+	}
+	only := ""
+	if rc := vReplayCase(); rc != nil {
+		var c schedCase
+		json.Unmarshal(rc, &c)
+		if m, ok := c.Scenario.(map[string]any); ok {
+			only, _ = m["seq"].(string)
+		}
+	}
 	for _, down := range []bool{false, true} {
 		for _, p4 := range []bool{false, true} {
 			for cfgi := 0; cfgi < 8; cfgi++ {
@@ -495,34 +519,79 @@ func c12Features(res *vResult) {
 				if p4 {
 					cfg.P4Conf = &vP4Cfg{DefaultTC: 3, UEPool: "10.250.0.0/24"}
 				}
-				in := newVInst(cfg)
-				c := in.conns[0]
-				out, fr, msg := in.inject(0, (&sReq{Kind: kAssoc, Seq: 5}).build(c).marshal())
-				res.Evaluations++
-				res.Distinct++
-				cs := schedCase{Scenario: map[string]any{"mode": "features", "cfg": cfg}}
-				switch {
-				case fr != "":
-					res.finding("c12:panic:"+fr, msg, cs)
-				case len(out) != 1:
-					res.finding("c12:features-no-response", fmt.Sprintf("%d responses", len(out)), cs)
-				default:
-					d, err := vDecode(out[0])
-					if err != nil || d.Type != message.MsgTypeAssociationSetupResponse {
-						res.finding("c12:features-bad-response", "not an Association Setup Response", cs)
-						break
+				for _, sq := range seqs {
+					if only != "" && sq != only {
+						continue
 					}
-					accepted := d.Cause == ie.CauseRequestAccepted
-					if accepted == down {
-						res.finding("c12:connectivity-gate", fmt.Sprintf("datapath connected=%v but the Association Setup was answered with cause %d", !down, d.Cause), cs)
+					if cfgi != 0 && cfgi != 7 && len(sq) > 2 {
+						continue // long sequences on two feature configurations, all configurations for the short ones
 					}
-					f := d.Features
-					if len(f) < 3 || f[0]&0x10 == 0 || (f[2]&0x04 != 0) != cfg.UEIPAlloc || (f[1]&0x01 != 0) != cfg.EndMarker {
-						res.finding("c12:features", fmt.Sprintf("UP Function Features % x for UE-IP allocation=%v end marker=%v (FTUP must always be set)", f, cfg.UEIPAlloc, cfg.EndMarker), cs)
-					}
+					c12FeatureSeq(res, cfg, sq)
 				}
-				in.close()
 			}
+		}
+	}
+}
+
+func c12FeatureSeq(res *vResult, cfg vCfg, sq string) {
+	in := newVInst(cfg)
+	defer in.close()
+	c := in.conns[0]
+	connected := !cfg.Down
+	var ready *grpc.ClientConn
+	if in.bs != nil {
+		_, _, ready = fbFrontEnd()
+	}
+	cs := schedCase{Scenario: map[string]any{"mode": "features", "cfg": cfg, "seq": sq}}
+	for i, op := range sq {
+		if op == 'T' {
+			connected = !connected
+			if in.bs != nil {
+				in.bs.conn = nil
+				if connected {
+					in.bs.conn = ready
+				}
+			} else {
+				in.p4.up4.setConnectedStatus(connected)
+			}
+			continue
+		}
+		r := &sReq{Kind: kAssoc, Seq: uint32(5 + i)}
+		switch op {
+		case 'B':
+			r.TSOff = int64(100 * (i + 1))
+		case 'N':
+			r.NodeID = "10.0.9.9"
+		}
+		out, fr, msg := in.inject(0, r.build(c).marshal())
+		res.Evaluations++
+		res.Distinct++
+		switch {
+		case fr != "":
+			res.finding("c12:panic:"+fr, msg, cs)
+			return
+		case len(out) != 1:
+			res.finding("c12:features-no-response", fmt.Sprintf("%d responses (sequence %s, step %d)", len(out), sq, i), cs)
+			return
+		}
+		d, err := vDecode(out[0])
+		if err != nil || d.Type != message.MsgTypeAssociationSetupResponse {
+			res.finding("c12:features-bad-response", "not an Association Setup Response", cs)
+			return
+		}
+		accepted := d.Cause == ie.CauseRequestAccepted
+		if accepted != connected {
+			kind := "first"
+			if i > 0 {
+				kind = "repeated:" + string(op)
+			}
+			res.finding("c12:connectivity-gate:"+kind, fmt.Sprintf("datapath connected=%v at that moment but the Association Setup was answered with cause %d (sequence %s, step %d; A = setup, B = setup with a newer Recovery Time Stamp, N = setup from another node id, T = connectivity toggles)", connected, d.Cause, sq, i), cs)
+			return
+		}
+		f := d.Features
+		if len(f) < 3 || f[0]&0x10 == 0 || (f[2]&0x04 != 0) != cfg.UEIPAlloc || (f[1]&0x01 != 0) != cfg.EndMarker {
+			res.finding("c12:features", fmt.Sprintf("UP Function Features % x for UE-IP allocation=%v end marker=%v (FTUP must always be set)", f, cfg.UEIPAlloc, cfg.EndMarker), cs)
+			return
 		}
 	}
 }
